@@ -170,6 +170,7 @@ def substitute(short, g):
             g[name] = _SN(); subs.append(name)
     g["print"] = _quiet_print
     subs.append("print")
-    from . import fs
+    from . import fs, numstubs
     subs += fs.substitute(short, g)
+    subs += numstubs.substitute(short, g)
     return subs
